@@ -169,4 +169,11 @@ def run(chk, facts):
         chk.anchor_fail("R-C06-4", e)
     envflow.check_unassigned_join(chk, facts, "R-C06-4")
     envflow.check_unassigned_closed(chk, facts, "R-C06-4")
+    # the constructor clause of the property: a non-nullable field is assigned on every path before it is read (shared rule)
+    chk.rule("R-C06-5", "non-nullable fields are definitely assigned by the constructor: unassigned join, `self.f` refused while unassigned, only `self.<field> := e` marks a field (shared with R-C09-3)")
+    from .c09 import field_init
+    field_init(chk, facts, "R-C06-5")
+    chk.rule("R-C06-6", "no element is dropped before it is checked: every zip/take/skip in the checker is length-guarded or reviewed (shared census, rules/quant.py)")
+    from .quant import truncation_census
+    truncation_census(chk, facts, "R-C06-6")
     chk.notes.append("C06: decision table of the nullable comparator enumerated; constraint census for the sources of null.")
